@@ -604,6 +604,18 @@ def run(ctx):
                           "C08 fails on the implementation: %s gives %s; the mass on the condition as written is %s (%s)"
                           % (text, show_outcome(oc), exp, cause),
                           dict(text=text, impl=show_outcome(oc), expected=str(exp), cause=cause))
+    # ---------------- 0a'. parameters that are not of the law's kind at all (a non-integer number of trials, mean or
+    # bound): "invalid parameters are rejected" — a diagnosed error, never a probability, a mean or an escaped exception
+    REJECT = ["Binomial(5/2, 1/2)", "Binomial(2.5, 0.5)", "Binomial(7/2, 0.5)", "Poisson(5/2)", "Poisson(2.5)",
+              "UniformInt(1/2, 3)", "UniformInt(1, 2.5)", "Binomial(3!/4, 1/2)"]
+    rej_texts = []
+    for rv in REJECT:
+        rej_texts += ["P(%s <= 1)" % rv, "P(%s <= 5)" % rv, "P(1 < %s < 3)" % rv, "P(%s = 1)" % rv, "E(%s)" % rv, "mean(%s)" % rv]
+    for text, oc in zip(rej_texts, [outcome(o) for o in C.run_impl(impl_case, rej_texts, ctx["rundir"], limit=10.0)]):
+        if not (oc[0] == "err" and oc[2]):
+            rep.violation(dict(kind="invalid-parameter-accepted", law=text.split("(")[1], outcome=oc[0]),
+                          "C08 fails on the implementation: %s gives %s; a law with such a parameter must be rejected with a diagnosed error"
+                          % (text, show_outcome(oc)), dict(text=text, impl=show_outcome(oc), expected="a diagnosed error"))
     # ---------------- 0b. deep-tail consistency of a discrete law with a large mean: the point mass must be the
     # difference of the cumulative values (P(X=k) = P(X<=k) - P(X<k)) and satisfy pmf(k+1)/pmf(k) = mu/(k+1),
     # across the place where Poisson.pmf switches to its logarithmic formula (k > 100)
